@@ -108,6 +108,26 @@ Theorem c14_no_error :
 Proof. exact legal_no_error. Qed.
 Print Assumptions c14_no_error.
 
+(* Synchronous Hyperband (SynchronousHyperbandScheduler.on_trial_result, the 'resource > prev_level' guard):
+   a report at a level at or below the previous rung level of the trial's bracket (a job restarted from
+   scratch re-reports them) leaves the searcher state unchanged; above it, the report is stored exactly
+   when searcher_data = all or the level is the job's rung level, and then only the entry (trial, level)
+   changes; and for every event sequence there is at most one observation per (trial, level). *)
+Theorem c14_sync_guard :
+  forall all mx s t r v ms prev,
+    (r <= prev -> sync_on_result all mx s t r v ms prev = s) /\
+    (prev < r -> (all = true \/ r = ms) ->
+       sync_on_result all mx s t r v ms prev = label s t r (if mx then (1 - v)%Q else v)) /\
+    (prev < r -> all = false -> r <> ms -> sync_on_result all mx s t r v ms prev = s) /\
+    (forall k c, fst k <> t \/ snd k <> r -> In (k, c) (obs (sync_on_result all mx s t r v ms prev)) <-> In (k, c) (obs s)).
+Proof. exact sync_guard. Qed.
+Print Assumptions c14_sync_guard.
+
+Theorem c14_sync_at_most_one :
+  forall all mx s e s', sync_step all mx s e = Ok s' -> NoDup (map fst (obs s)) -> NoDup (map fst (obs s')).
+Proof. exact sync_step_nodup. Qed.
+Print Assumptions c14_sync_at_most_one.
+
 (* non-vacuity: promotion, rungs_and_last, two brackets' worth of levels; trial 0 is paused at 1,
    resumed without checkpointing (re-reports level 1), trial 1 fails, trial 0 completes *)
 Definition ex_cfg := {| rung_levels := [1; 3]; max_t := 9; pol := RungsAndLast; myopic := false;
